@@ -190,7 +190,10 @@ impl FrameWriter for QuicFrameWriter {
             frame.session_id,
             frame.len()
         );
-        let mtu = self.conn.max_datagram_size();
+        // The peer chooses this limit (its max_datagram_frame_size transport parameter). One that leaves no room
+        // for the fragment header and a byte of payload is as good as none: it used to trip the assertion in
+        // make_fragments, which ends the process.
+        let mtu = self.conn.max_datagram_size().filter(|mtu| *mtu > 4);
         if mtu.is_none() {
             return Err(IoError::new(
                 ErrorKind::Unsupported,
